@@ -80,6 +80,80 @@ def dbStep (E : Impl.Env) (db : Impl.Db) (op : String) : Impl.Db × String :=
     | none => (db, "err " ++ hex (Impl.encDb db))
   | _ => (db, "bad-op")
 
+/-! ### held lists
+
+A caller that hands a list to `AppendList` / `AppendDatabase` keeps its pointer, and in the library the
+database stores that very pointer: an edit of the caller's list IS an edit of the database's list.
+In the value world of the model this is a book of positions: `held[k]` is where the k-th handed-over
+list sits in the database (`none` once the database dropped it, or was replaced by a decoded one). -/
+
+structure OpsState where
+  db : Impl.Db
+  held : List (Option Nat)
+
+/-- the list `Db.remove` drops: the first list of that type and size that holds the entry, when the
+    entry is its only one -/
+def dropIdx (db : Impl.Db) (t o d : Bytes) : Option Nat :=
+  match db.findIdx? (fun l => l.type == t && l.size == d.length + 16 && l.has o d) with
+  | some i => (match db[i]? with
+    | some l => if l.sigs.length == 1 then some i else none
+    | none => none)
+  | none => none
+
+def heldAfterDrop (held : List (Option Nat)) (j : Nat) : List (Option Nat) :=
+  held.map fun h => match h with
+    | some i => if i == j then none else if i > j then some (i - 1) else some i
+    | none => none
+
+/-- list-level `RemoveBytes` (the case that empties the list is answered with "skip" by the caller) -/
+def listRemoveBytes (l : Impl.SList) (o d : Bytes) : Option Impl.SList :=
+  if l.has o d then
+    some { l with sigs := l.sigs.erase ⟨o, d⟩, listSize := l.listSize - l.size }
+  else none
+
+/-- one step of a `sigdb.ops` history with the book of handed-over lists -/
+def opsStep (E : Impl.Env) (st : OpsState) (op : String) : OpsState × String :=
+  let enc := fun (db : Impl.Db) => hex (Impl.encDb db)
+  match op.splitOn "," with
+  | [hop, k, sig] =>
+    if hop == "HA" || hop == "HR" then
+      -- the caller edits the k-th list it handed over (list-level AppendBytes / RemoveBytes)
+      match st.held[natArg k]?, parseSigs sig with
+      | some h, [s] =>
+        (match h with
+        | none => (st, "detached " ++ enc st.db)
+        | some i =>
+          match st.db[i]? with
+          | none => (st, "detached " ++ enc st.db)
+          | some l =>
+            if hop == "HA" then
+              match l.appendBytes E s.owner s.data with
+              | .ok l' => let db' := st.db.set i l'; ({ st with db := db' }, "ok " ++ enc db')
+              | .error _ => (st, "err " ++ enc st.db)
+            else if l.sigs.length == 1 && l.has s.owner s.data then (st, "skip " ++ enc st.db)
+            else match listRemoveBytes l s.owner s.data with
+              | some l' => let db' := st.db.set i l'; ({ st with db := db' }, "ok " ++ enc db')
+              | none => (st, "err " ++ enc st.db))
+      | _, _ => (st, "nolist " ++ enc st.db)
+    else
+      let (db', o) := dbStep E st.db op
+      if hop == "LM" && o != "bad-op" then (⟨db', st.held ++ [some (db'.length - 1)]⟩, o) else (⟨db', st.held⟩, o)
+  | kind :: rest =>
+    let (db', o) := dbStep E st.db op
+    if o == "bad-op" then (⟨db', st.held⟩, o)
+    else if kind == "L" || kind == "LM" || kind == "LH" || kind == "DH" then
+      (⟨db', st.held ++ [some (db'.length - 1)]⟩, o)
+    else if kind == "R" && o.startsWith "ok " then
+      match rest with
+      | [t, ow, d] =>
+        (match dropIdx st.db (unhex t) (unhex ow) (unhex d) with
+        | some j => (⟨db', heldAfterDrop st.held j⟩, o)
+        | none => (⟨db', st.held⟩, o))
+      | _ => (⟨db', st.held⟩, o)
+    else if kind == "E" && o.startsWith "ok " then (⟨db', st.held.map fun _ => none⟩, o)
+    else (⟨db', st.held⟩, o)
+  | _ => (st, "bad-op")
+
 def handleSigDb (op : String) (args : List String) : Option String :=
   match op, args with
   | "sigdb.read", [h] =>
@@ -100,8 +174,8 @@ def handleSigDb (op : String) (args : List String) : Option String :=
     match (if start == "empty" then some [] else Impl.readDb (unhex start)) with
     | none => some "start-err"
     | some db0 =>
-      let (_, outs) := (ops.splitOn ";").foldl (fun (acc : Impl.Db × List String) op =>
-        let (db', o) := dbStep E acc.1 op; (db', o :: acc.2)) (db0, [])
+      let (_, outs) := (ops.splitOn ";").foldl (fun (acc : OpsState × List String) op =>
+        let (st', o) := opsStep E acc.1 op; (st', o :: acc.2)) (⟨db0, []⟩, [])
       some ("/".intercalate outs.reverse)
   | _, _ => none
 
